@@ -18,7 +18,7 @@ func init() {
 		Run:      runC11,
 		Explanation: "Decides structural necessary conditions of 'quorum reads return only quorum-backed results and release everything else' in DoUntilQuorumWithoutSuccessfulContextCancellation (which backs DoUntilQuorum and the multi-set variant) and ReplicationSet.Do: (R1) every spawned per-instance goroutine sends exactly one result on every path; (R2) every receive is accounted (decrement on every path of the receiving case; the deferred drain loops on the counter, decrements per receive and cleans successful late results); " +
 			"(R3) ownership: a successfully received result is always recorded before anything else can return (it is dropped only if its error is non-nil); every error return after the spawn loop runs the cleanup of recorded results exactly once; on success every recorded result is either returned or cleaned, never both or neither; (R4) cancellation: terminate cancels all contexts, a failed instance and every instance whose result is not returned get cancelContextFor; (R5) a terminal error returns before resultTracker.done; (R6) f has one call site, in the goroutine spawned per element of the instance loop; " +
-			"(R7) in ReplicationSet.Do each held-back goroutine waits on a timer it created itself (a shared timer channel delivers only once). Also: (R8) DoUntilQuorum and DoMultiUntilQuorum… delegate to the analysed functions with arguments, configuration and results untouched; (R10) multi-set read: every worker reads its set, failures recorded once, successes appended in full, answer after Wait; (R11) the configuration check refuses exactly a negative hedging delay (no other configuration makes a read fail before any call). NOT decided: the success criterion arithmetic of the trackers beyond the ordering tables of R9, hedging timing, the in-flight tracker that decides when the multi-set workers context may be cancelled.",
+			"(R7) in ReplicationSet.Do each held-back goroutine waits on a timer it created itself (a shared timer channel delivers only once). Also: (R8) DoUntilQuorum and DoMultiUntilQuorum… delegate to the analysed functions with arguments, configuration and results untouched; (R10) multi-set read: every worker reads its set, failures recorded once, successes appended in full, answer after Wait; (R11) the configuration check refuses exactly a negative hedging delay (no other configuration makes a read fail before any call). (R12) ReplicationSet.Do's collecting loop never blocks on a send: the force-start send is unreachable whenever the zone-aware tracker was chosen. NOT decided: the success criterion arithmetic of the trackers beyond the ordering tables of R9, hedging timing, the in-flight tracker that decides when the multi-set workers context may be cancelled.",
 	}
 }
 
